@@ -111,10 +111,11 @@ Proof.
   split; (constructor; [lia|assumption]).
 Qed.
 
-Theorem enc_dec_main : forall cfg p s, ~ Known_C13_2 p -> decode cfg p = Ok s -> has_non_ascii s = true ->
+(* no hypothesis on s is needed: an all-ASCII result comes from p = s ++ "-" (or p = s = ""), which re-encodes to itself *)
+Theorem enc_dec_all : forall cfg p s, ~ Known_C13_2 p -> decode cfg p = Ok s ->
   exists q, encode cfg s = Ok q /\ eq_upto_digit_case q p.
 Proof.
-  intros cfg p s Hk Hdec _.
+  intros cfg p s Hk Hdec.
   assert (HLp : len p <= U32_MAX) by (unfold Known_C13_2 in Hk; lia).
   destruct (decode_b cfg p s HLp Hdec) as [base [rest [Es [Ha Hb]]]].
   destruct (forallb_all_le base Ha) as [Hle127 Hlt128].
@@ -161,3 +162,7 @@ Proof.
     rewrite Hne. reflexivity.
   - injection Es as Eb Erest. rewrite <- Eb. rewrite len_nil. cbn [app]. reflexivity.
 Qed.
+
+Theorem enc_dec_main : forall cfg p s, ~ Known_C13_2 p -> decode cfg p = Ok s -> has_non_ascii s = true ->
+  exists q, encode cfg s = Ok q /\ eq_upto_digit_case q p.
+Proof. intros cfg p s Hk Hdec _. exact (enc_dec_all cfg p s Hk Hdec). Qed.
